@@ -592,3 +592,60 @@ func verifC05_read_vs_close() {
 	c.CloseNow()
 	vObserve("read-vs-close", peer, at, len(got))
 }
+
+// C05.read-interrupted: a reader is blocked in the middle of a frame (header or payload arrived only in part) when the
+// connection is closed locally (CloseNow, Close) or the read's context ends. The read fails, and whatever bytes it hands
+// out with the failure are a prefix of the message.
+func verifC05_read_interrupted() {
+	client := vParam("client", 1) == 1
+	vInstallRand()
+	mk := func(f vFrame) vFrame {
+		f.masked = !client
+		if f.masked {
+			copy(f.key[:], vBytes("key", 4))
+		}
+		return f
+	}
+	first := vBytes("m", 2)
+	second := vBytes("m", 4)
+	two := vChoose("fragments", 2) == 1
+	var wire []byte
+	var full []byte
+	if two {
+		wire = vEncodeFrame(mk(vFrame{fin: false, opcode: 2, payload: first}))
+		full = append(full, first...)
+		wire = append(wire, vEncodeFrame(mk(vFrame{fin: true, opcode: 0, payload: second}))...)
+	} else {
+		wire = vEncodeFrame(mk(vFrame{fin: true, opcode: 2, payload: second}))
+	}
+	full = append(full, second...)
+	cut := 1 + vChoose("arrived", len(wire)-1) // at least one byte, never everything
+	t := vNewTransport(wire[:cut])
+	t.endMode = vEndBlock
+	c := vNewConn(t, client, nil, 16, 64)
+	ctx, cancel := context.WithCancel(vBG)
+	how := vChoose("how", 3)
+	vClassify("interrupted-by", []string{"CloseNow", "Close", "context"}[how])
+	go func() {
+		time.Sleep(time.Second)
+		switch how {
+		case 0:
+			c.CloseNow()
+		case 1:
+			c.Close(StatusNormalClosure, "")
+		default:
+			cancel()
+		}
+	}()
+	var got []byte
+	_, r, err := c.Reader(ctx)
+	if err == nil {
+		got, err = vReadAll(r, 1+vChoose("buf", 2)*7)
+	}
+	vReach("C05.read-interrupted.returned")
+	vAssert(err != nil, "C05.read-interrupted.fails")
+	vAssert(vIsPrefix(got, full), "C05.read-interrupted.bytes-are-a-prefix")
+	cancel()
+	c.CloseNow()
+	vObserve("c05ri", two, cut, how, len(got))
+}
